@@ -137,7 +137,7 @@ PROPS = {
                 tps=["tcp", "ux", "btcp", "uxf", "tls", "utls", "btls", "utlst"], raw=0.0, profile="C03", blocking=0.3, block=True),
     "C06": dict(mc=["tcp_oneway_inj", "btcp_inj", "ux_twoway"], dev=[("tcp_dev_epipe", "C06_DrainFirst", "epipe_closes")],
                 paths=["tcp_oneway_inj", "btcp_inj"], tps=["tcp", "btcp", "ux", "uxf", "tcp", "tls", "btls", "utls"], raw=0.25, profile="C06"),
-    "C07": dict(mc=["tcp_hostile"], paths=["tcp_hostile"], tps=["tcp"], raw=1.0, profile="default"),
+    "C07": dict(mc=["tcp_hostile"], paths=["tcp_hostile"], tps=["tcp", "tls", "tcp"], raw=1.0, profile="default"),
     "C16": dict(mc=["tcp_cond", "ux_twoway", "btcp_oneway"], paths=["tcp_cond"], mc_quick=["tcp_cond_q", "ux_twoway", "btcp_oneway"],
                 paths_quick=["tcp_cond_q"], tps=["tcp", "btcp", "ux", "uxf", "tls", "utlst", "utls"], raw=0.0, profile="C16", tlsready=True),
     "C17": dict(mc=["tcp_oneway", "ux_oneway", "btcp_oneway", "tcp_twoway"], paths=["tcp_oneway", "ux_oneway", "btcp_oneway"],
@@ -377,7 +377,8 @@ def check(pid, tier, seed, only_random=False, extra=None):
             mp = rnd.sample(mp, T["paths_per_cfg"])
         tp = tp_of_cfg(name)
         hostile = MC[name]["HdrVals"] != "{}"
-        tps = [tp] + (["uxf"] if tp == "ux" else [])
+        # (a hostile peer of a tls connection is a btls socket: the same raw frames inside a genuine TLS stream)
+        tps = [tp] + (["uxf"] if tp == "ux" else []) + (["tls"] if hostile and tp == "tcp" else [])
         for i, p in enumerate(mp):
             xid += 1
             t = tps[i % len(tps)]
@@ -389,7 +390,7 @@ def check(pid, tier, seed, only_random=False, extra=None):
     for i in range(nrand):
         xid += 1
         tp = spec["tps"][i % len(spec["tps"])]
-        if rnd.random() < spec["raw"] and tp == "tcp":
+        if rnd.random() < spec["raw"] and tp in ("tcp", "tls"):
             scripts.append(conn.gen_raw_exec(rnd, xid, tp))
             origin[xid] = ("raw", None)
         elif rnd.random() < spec.get("loop", 0.0):
